@@ -306,6 +306,40 @@ pub fn c07(cx: &mut Ctx) {
             }
         }
     }
+    // the single-call API with boundary stopping: reads that start inside a chunk, on its pending CRLF, with small
+    // outputs — still never data of two chunks in one read
+    for (ci, coding) in [&b"4\r\ndata\r\n4;x\r\nmoar\r\n2\r\nzz\r\n0\r\n\r\n"[..], &b"1\r\na\r\n1\r\nb\r\n1\r\nc\r\n0\r\nT: v\r\n\r\n"[..]].iter().enumerate() {
+        for cap in [1usize, 3, 5, 100] {
+            for cut in [0usize, 4, 7, 8, 9, 12, coding.len()] {
+                cx.case("callstop");
+                let _ = ci;
+                if cx.rec.new_call("nobody", "GET HTTP/1.1 http://a.test/p 0") != "ok" { continue; }
+                cx.op("cwrite 4096"); cx.op("cinto");
+                cx.op(&format!("cresp {}", hx(CHUNKED_HEAD)));
+                if cx.op("cbody") != "state callRecvBody" { continue; }
+                cx.meta(&format!("body-stream {}", hx(coding)));
+                cx.op("cstopb 1");
+                let mut stream = coding.to_vec();
+                stream.extend_from_slice(NEXT);
+                let mut off = 0usize;
+                for upto in [cut.min(stream.len()), stream.len()] {
+                    for _ in 0..40 {
+                        if off > upto { break; }
+                        let res = cx.op(&format!("cread {} {}", hx(&stream[off..upto]), cap));
+                        let p: Vec<&str> = res.split(' ').collect();
+                        if p[0] != "bytes" { break; }
+                        let i: usize = p[1].parse().unwrap_or(0);
+                        off += i;
+                        cx.op("cboundary");
+                        if i == 0 && p[2] == "-" { break; }
+                        if cx.op("cended") == "bool true" { break; }
+                    }
+                }
+                cx.meta(&format!("consumed {}", off));
+                cx.op("cended");
+            }
+        }
+    }
 }
 
 pub fn c08(cx: &mut Ctx) {
